@@ -22,5 +22,6 @@ CONSTANTS
   IsoMatVer <- MCIsoMatVer
   IsoAdsVer <- MCIsoAdsVer
   IsoClass <- MCIsoClass
+  Traits <- MCTraits
 CHECK_DEADLOCK FALSE
 CONSTRAINT Emit
